@@ -159,6 +159,35 @@ def obj_fq(fn, e):
     return None, S(e["obj"], al)
 
 
+def passed_down(ctx, fx, f, fn, depth=2):
+    """atomic accesses a function performs THROUGH A HELPER it hands the atomic object to by reference
+    (`spinUntilSet(signals[i]->done)`): each atomic access of the helper on that parameter counts as a site of the caller, on
+    the object the caller passed, with the helper's memory order. Without this, moving an access into a helper would make
+    the caller's table row match nothing (analysis broken) instead of judging the order the helper requests."""
+    out = []
+    if depth <= 0:
+        return out
+    for pos, ce in fn.events(lambda e: e.get("k") == "call" and e.get("fk"), reachable_only=False):
+        g = fx.callee(ce)
+        if g is None or g is f or g["kind"] == "pattern" or not g.get("blocks"):
+            continue
+        for k, arg in enumerate(ce.get("a", [])):
+            t = arg
+            while isinstance(t, dict) and t.get("k") in ("cast", "paren"):
+                t = t.get("e")
+            if not isinstance(t, dict) or (t.get("t") or {}).get("rec") != "std::atomic" or k >= len(g.get("params", [])):
+                continue
+            pname = g["params"][k]["n"]
+            gfn = ctx.fn(g)
+            for gpos, ge in gfn.events(lambda e: e["k"] == "atomic", reachable_only=False):
+                _, gpath = obj_fq(gfn, ge)
+                if gpath == pname:
+                    v = dict(ge)
+                    v["obj"] = t
+                    out.append(("%s (in %s, called at %s)" % (gfn.loc(gpos), g["name"], fn.loc(pos)), v))
+    return out
+
+
 def check_rows(ctx, fx, prefix, rows, floor=None, fn_pred=None):
     R_ROLE = prefix + ".mo.role"
     ctx.rule(R_ROLE, "every atomic access on a promised synchronisation edge requests at least the memory order its role "
@@ -175,7 +204,9 @@ def check_rows(ctx, fx, prefix, rows, floor=None, fn_pred=None):
         if not hit_fn:
             continue
         fn = ctx.fn(f)
-        for pos, e in fn.events(lambda e: e["k"] == "atomic", reachable_only=False):
+        sites = [(fn.loc(pos), e) for pos, e in fn.events(lambda e: e["k"] == "atomic", reachable_only=False)]
+        sites += passed_down(ctx, fx, f, fn)
+        for loc_, e in sites:
             fq, path = obj_fq(fn, e)
             row = None
             for i in hit_fn:
@@ -201,7 +232,7 @@ def check_rows(ctx, fx, prefix, rows, floor=None, fn_pred=None):
                 row = i
                 break
             if row is None:
-                unclassified.append("%s %s %s at %s" % (f["qn"], path, e["kind"], fn.loc(pos)))
+                unclassified.append("%s %s %s at %s" % (f["qn"], path, e["kind"], loc_))
                 continue
             matched_rows.add(row)
             role = comp[row][3]
@@ -212,7 +243,7 @@ def check_rows(ctx, fx, prefix, rows, floor=None, fn_pred=None):
             n += 1
             ctx.ob(R_ROLE, f["qn"], ok,
                    "%s %s on %s requests %s; role %s: %s" % (e["kind"], e["aop"], path, NAMES.get(order, order), role, why),
-                   fn.loc(pos), "%s:%s" % (path.split("->")[-1].split(".")[-1].split("[")[0], e["kind"]),
+                   loc_, "%s:%s" % (path.split("->")[-1].split(".")[-1].split("[")[0], e["kind"]),
                    nontrivial=role != "HINT", fnkey=f["key"])
     for i, r in enumerate(comp):
         if i not in matched_rows:
